@@ -28,6 +28,12 @@ KINDS = {
     26: 'after an accepted header a consensus state kept for a height on the head\'s ancestry is not that ancestor\'s (time, height, root)',
     27: 'the observed store contains entries outside the header table of the case',
     28: 'the update panicked',
+    31: 'function level: the difficulty calculator of the code and calc_difficulty of the model disagree',
+    32: 'function level: CalcBaseFee of the code and calc_base_fee of the model disagree (value or panic)',
+    33: 'function level: VerifyGaslimit of the code and verify_gaslimit of the model disagree',
+    35: 'the difficulty the code computes from a real main-net parent is not the real child\'s: the client refuses a rule-abiding child',
+    36: 'the base fee the code computes from a real main-net parent is not the real child\'s: the client refuses a rule-abiding child',
+    37: 'the code refuses the gas limit of a real main-net child',
     41: 'rule-abiding child of a stored header refused: the fork point lies below the pruned prefix (the sibling on the main branch was pruned)',
     42: 'the accepted header left the client Expired at the very block time of the update (its timestamp is older than the trusting period): every later update is refused',
     43: 'after a header whose state root equals a stored sibling\'s: consensus states no longer follow the head\'s ancestry / valid child refused',
@@ -232,7 +238,44 @@ def evaluate(workdir, results, tag='cases'):
         return ([(members[h], s, k) for h, s, k in m] + [(members[h], 0, 14) for (h,) in o] + dirty,
                 [(members[h], s, k) for h, s, k in f])
 
-    outs = vlib.parallel(one, list(enumerate(shards)), workers=14)
+    outs = vlib.parallel(one, list(enumerate(shards)), workers=10)
+    mm, ff = [], []
+    for o in outs:
+        if o[0] == 'error':
+            return None, o[1]
+        mm += o[0]
+        ff += o[1]
+    return mm, ff
+
+
+def q_term(c):
+    def hx(h):
+        return '0x' + (h or '0')
+    diff = ('(-%s)%%Z' if c['diff_neg'] else '%s%%Z') % hx(c['diff'])
+    bf = '(Some %s)' % hx(c['bf']) if c['bf_class'] == 0 else 'None'
+    child = '(Some (%s, %s))' % (hx(c['cdiff']), hx(c['cbf'])) if c['has_child'] else 'None'
+    return '(mkq %d %d %d %d "%s" "%s" "%s" %d %d %s %s %s %s)' % (
+        c['ptime'], c['pnum'], c['pgaslimit'], c['pgasused'], c['puncle'].lower(), c['pdiff'].lower(), c['pbasefee'].lower(),
+        c['time'], c['hgaslimit'], diff, bf, coq_bool(c['gl_ok']), child)
+
+
+def evaluate_calc(workdir, cases, tag='calc', shard=800):
+    """returns (mismatches, monitor failures) as lists of (case index, kind); (None, log) on a Coq failure"""
+    if not cases:
+        return [], []
+
+    def one(k):
+        part = cases[k:k + shard]
+        defs = 'Definition qs : list qcase := %s.\n' % coq_list([q_term(c) for c in part])
+        res = vlib.coq_eval_lists(workdir, '%s_cases_%d.v' % (tag, k // shard), HEADER, defs,
+                                  [('CR', 'calc_report qs'), ('CM', 'fst CR'), ('CF', 'snd CR')])
+        m = vlib.parse_nat_tuples(res.get('CM'), 2)
+        f = vlib.parse_nat_tuples(res.get('CF'), 2)
+        if res['_rc'] != 0 or m is None or f is None:
+            return ('error', res['_out'][-3000:])
+        return ([(k + i, kd) for i, kd in m], [(k + i, kd) for i, kd in f])
+
+    outs = vlib.parallel(one, list(range(0, len(cases), shard)), workers=4)
     mm, ff = [], []
     for o in outs:
         if o[0] == 'error':
@@ -340,20 +383,12 @@ def coverage(run, results, mm, ff):
                     d = 'down' if n['num'] <= nodes[head]['num'] else 'up'
                     dist['reorg_head_moves_' + d] += 1
                 dist['accepted_' + kind] += 1
-                if len(o['cons']) < len(pre_cons) + (0 if kind != 'extends_head' else 1) if 'pre_cons' in dir() else False:
-                    pass
                 if not st['probe']:
                     head = st['n']
                     seen.add(st['n'])
             nontrivial.add((o['class'], tag, lab.split('~', 1)[1] if '~' in lab else '', st['probe'], n['num'] - nodes[0]['num'],
                             len(o['cons']), len(o['idx']), o['head'] == st['n']))
-        # pruning activity: consensus states disappearing
-        prev = len(r['create']['cons'])
-        for st, o in zip(sp['steps'] or [], r['obs'] or []):
-            if o['class'] == 0 and not st['probe']:
-                if len(o['cons']) <= prev and len(o['idx']) < 1 + len([1 for x in sp['steps']]):
-                    pass
-                prev = len(o['cons'])
+        # pruning activity: header-index entries disappearing
         ids = [set(o['idx']) for o in r['obs'] or [] if o['class'] == 0]
         for a, b in zip(ids, ids[1:]):
             if a - b:
@@ -378,9 +413,12 @@ def coverage(run, results, mm, ff):
         'executes every submission on a branch written back only on success',
         'theorems: block numbers below 2^63 (above, rlp refuses the number and all headers hash alike); the hash oracle returns 32 '
         'bytes and maps headers with different numbers to different hashes (checked on every tabulated table)',
-        'theorems no_wedge / main_chain_roots: the creation proposal\'s consensus state is the installed header\'s; all headers carry '
-        'the client\'s revision number; no two stored headers of one height share a state root; each is shown necessary by a '
-        'Refuted/C10_*.v witness replayed on the real code']
+        'theorems no_wedge / main_chain_roots: the creation proposal\'s consensus state is the installed header\'s; all accepted '
+        'headers carry the client\'s revision number; no two stored headers of one height share a state root; the fork point is '
+        'not below the pruned prefix; the client is active -- each is shown necessary by a Refuted/C10_*.v witness that also runs '
+        'on the real code (corpus scenarios witness:*)',
+        'the model is parametrised by three candidate repairs (Model/Eth.v: fix_rev, fix_exp, fix_root, all false = the code as '
+        'it is); the proofs hold for every value; a constant is flipped when its patch is committed to /repo']
 
 
 def report(run, results, mm, ff):
@@ -419,20 +457,47 @@ def check(run):
                            explanation='the correspondence harness no longer builds against /repo'), no_input=True)
         return run.finish()
     outp = os.path.join(run.work, 'out.jsonl')
-    args = ['-seed', run.seed, '-n', run.budget(150, 2500), '-perms', run.budget(4, 5), '-muts', run.budget(4, 40), '-out', outp]
+    fixture = os.path.join(vlib.REPO, 'x/xibc/clients/light-clients/eth/types/testdata/update_headers.json')
+    calcp = os.path.join(run.work, 'calc.jsonl')
+    args = ['-seed', run.seed, '-n', run.budget(150, 1500), '-perms', run.budget(4, 5), '-muts', run.budget(4, 40), '-out', outp,
+            '-calc', run.budget(1000, 8000), '-calcout', calcp, '-calcfixture', fixture]
     if not run.quick():
-        args += ['-fixture', os.path.join(vlib.REPO, 'x/xibc/clients/light-clients/eth/types/testdata/update_headers.json')]
+        args += ['-fixture', fixture]
     rc, o = vlib.run_harness('c10', args, timeout=3000)
     if rc != 0:
         run.violation(dict(kind='harness-crashed', log=o[-3000:]), no_input=True)
         return run.finish()
     results = vlib.read_jsonl(outp)
-    mm, ff = evaluate(run.work, results)
+    calc = vlib.read_jsonl(calcp)
+    import concurrent.futures
+    with concurrent.futures.ThreadPoolExecutor(max_workers=1) as ex:   # the function-level file is evaluated alongside the shards
+        fut = ex.submit(evaluate_calc, run.work, calc)
+        mm, ff = evaluate(run.work, results)
+        cm, cf = fut.result()
     if mm is None:
         run.violation(dict(kind='coq-evaluation-failed', log=ff), no_input=True)
         return run.finish()
+    if cm is None:
+        run.violation(dict(kind='coq-evaluation-failed', log=cf), no_input=True)
+        return run.finish()
     coverage(run, results, mm, ff)
+    run.coverage['evaluations'] += len(calc)
+    run.coverage['function_level'] = dict(
+        triples=len(calc), mainnet_pairs=len([c for c in calc if c['has_child']]), mismatches=len(cm), monitor_failures=len(cf),
+        base_fee_panics=len([c for c in calc if c['bf_class'] == 2]), gas_limit_accepted=len([c for c in calc if c['gl_ok']]),
+        bomb_active=len([c for c in calc if 9899999 <= c['pnum'] < 2 ** 63]),
+        rule='difficulty calculator (hook VerifCalcDifficulty), CalcBaseFee, VerifyGaslimit of the code vs the model on generated '
+             'triples with boundary values; on consecutive main-net headers additionally the code\'s values vs the real child\'s')
     report(run, results, mm, ff)
+    for i, k in cf[:2]:   # the code does not reproduce real main-net data: concrete failing input
+        run.violation(dict(kind='monitor', code=k, what=KINDS.get(k), calc=calc[i]), name='replay_calc_%d_k%d.json' % (i, k))
+    if not run.violations and cm:
+        i, k = cm[0]
+        run.violation(dict(kind='correspondence', code=k, what=KINDS.get(k), calc=calc[i],
+                           explanation='Model/Eth.v no longer describes the arithmetic of the header rules of /repo; the theorems of '
+                                       'Props/C10.v are about the model, so the property is no longer shown to hold',
+                           broken='correspondence Model.Eth <-> x/xibc/clients/light-clients/eth/types/verify_header.go'),
+                      name='replay_corr_calc_%d.json' % i, no_input=True)
     if not run.violations and not run.proof_ok():
         run.proof_violation()
     return run.finish()
@@ -443,6 +508,22 @@ def replay(path):
     work = os.path.join(vlib.ROOT, 'work', 'C10_replay')
     os.makedirs(work, exist_ok=True)
     ok, out = vlib.build_harness(['c10'])
+    if ok and 'calc' in rp:
+        inp, outp = os.path.join(work, 'calc_in.jsonl'), os.path.join(work, 'calc_out.jsonl')
+        vlib.write_jsonl(inp, [rp['calc']])
+        rc, o = vlib.run_harness('c10', ['-calcin', inp, '-calcout', outp, '-out', os.path.join(work, 'unused.jsonl')])
+        cs = vlib.read_jsonl(outp) if rc == 0 else []
+        cm, cf = evaluate_calc(work, cs, 'replay_calc')
+        for c in cs:
+            print('parent number %d time %d -> difficulty 0x%s base fee %s gas limit %s; real child: %s' % (
+                c['pnum'], c['ptime'], c['diff'], ('0x' + c['bf']) if c['bf_class'] == 0 else 'PANIC', c['gl_ok'],
+                ('difficulty 0x%s base fee 0x%s' % (c['cdiff'], c['cbf'])) if c['has_child'] else 'n/a'))
+        print('model mismatches:', cm, ' monitor failures:', [(i, k, KINDS.get(k, '')[:60]) for i, k in (cf or [])])
+        if cm or cf or not cs:
+            print('VIOLATION property=C10 replay=%s' % path)
+            return 1
+        print('replay passes on the current tree')
+        return 0
     if not ok or 'spec' not in rp:
         print('cannot replay: %s' % (out[-500:] if not ok else 'no spec in replay file (%s)' % rp.get('kind')))
         return 2
